@@ -29,6 +29,14 @@ inductive Prog where
   /-- a read-only question to the file system (lstat / readdir): not a recorded call, cannot be made to fail -/
   | probeDir (p : Path) (k : Bool → Prog)
   | probeExists (p : Path) (k : Bool → Prog)
+  /-- stat(p).Mode().Perm() == m -/
+  | probeMode (p : Path) (m : Nat) (k : Bool → Prog)
+
+/-- The permission bits of whatever is at `p` are `m`. -/
+def modeIs (s : FS) (p : Path) (m : Nat) : Bool :=
+  match lookup s.names p with
+  | none => false
+  | some i => (inodeAt s i).map (·.mode) == some m
 
 structure Choice where
   fail : Option Errno
@@ -53,6 +61,7 @@ def runProg : Prog → FS → List Choice → List Call
   | .ret _, _, _ => []
   | .probeDir p k, s, o => runProg (k (kindAt s p == some .dir)) s o
   | .probeExists p k, s, o => runProg (k (lookup s.names p).isSome) s o
+  | .probeMode p m k, s, o => runProg (k (modeIs s p m)) s o
   | .sys _ _, _, [] => []
   | .sys r k, s, c :: cs =>
     match c.fail with
@@ -81,6 +90,7 @@ def checkAll (dest : Path) (old new : Obs) (tmp : Path → Bool) : Prog → Chk 
   | .ret _, k, _ => k.ok
   | .probeDir p kont, k, n => checkAll dest old new tmp (kont (kindAt k.s p == some .dir)) k n
   | .probeExists p kont, k, n => checkAll dest old new tmp (kont (lookup k.s.names p).isSome) k n
+  | .probeMode p m kont, k, n => checkAll dest old new tmp (kont (modeIs k.s p m)) k n
   | .sys r kont, k, n =>
     let c : Choice := { fail := none, rnd := rndOf n, fd := 5 }
     k.ok &&
@@ -250,6 +260,64 @@ def fileUnpackP (regTmp tmpdir dest : Path) (chunks : List Seg) (readFails : Boo
     if there then .ret false
     else createAtomicP (some regTmp) tmpdir dest 0 chunks readFails
 
+/-! ### utils/fs.go, utils/structure.go, updater/fetch.go -/
+
+/-- utils.EnsureDirectory(path, perm) (fs.go:14-48): an existing directory gets its mode corrected; a file in
+    the way is removed; a missing directory is created and chmod-ed. `k failed`. -/
+def ensureDirectoryK (p : Path) (perm : Nat) (k : Bool → Prog) : Prog :=
+  let create : Prog :=
+    .sys (.call (.mkdir p perm)) fun r =>
+      match r with
+      | .err _ => k true
+      | _ => .sys (.call (.chmod p perm)) fun r =>
+          match r with
+          | .err _ => k true
+          | _ => k false
+  .probeExists p fun there =>
+    if !there then create
+    else .probeDir p fun isDir =>
+      if isDir then
+        .probeMode p perm fun same =>
+          if same then k false
+          else .sys (.call (.chmod p perm)) fun r =>
+            match r with
+            | .err _ => k true
+            | _ => k false
+      else
+        -- os.Remove of the file in the way: unlink, then rmdir; an error only if both fail
+        .sys (.call (.unlink p)) fun r =>
+          match r with
+          | .err _ => .sys (.call (.rmdir p)) fun r =>
+              match r with
+              | .err _ => k true
+              | _ => create
+          | _ => create
+
+/-- DirStructure.EnsureAbsPath resolved to the list of (directory, permission) pairs it ensures, top down. -/
+def ensureDirsK : List (Path × Nat) → (Bool → Prog) → Prog
+  | [], k => k false
+  | (p, perm) :: rest, k => ensureDirectoryK p perm fun failed => if failed then k true else ensureDirsK rest k
+
+/-- updater.fetchFile without signature verification (fetch.go:22-150) as called by DownloadUpdates (which logs
+    the error and returns nil): ensure the folder, TempFile in the registry's tmp dir, the HTTP request
+    (`httpFails`: status ≠ 200 / connection error — no file-system call), io.Copy (`bodyFails`: the body ends
+    early or the length differs), CloseAtomicallyReplace, chmod 0755 (error only logged). -/
+def fetchFileP (dirs : List (Path × Nat)) (regTmp dest : Path) (chunks : List Seg) (httpFails bodyFails : Bool) : Prog :=
+  ensureDirsK dirs fun failed =>
+    if failed then .ret false
+    else
+      .sys (.createTemp regTmp (tmpPrefix dest)) fun r =>
+        match r with
+        | .created t fd =>
+          if httpFails then cleanupP t fd false (.ret false)
+          else
+            writeAllP fd chunks (cleanupP t fd false (.ret false))
+              (if bodyFails then cleanupP t fd false (.ret false)
+               else closeAtomicallyReplaceK t fd dest fun failed =>
+                 if failed then .ret false
+                 else .sys (.call (.chmod dest 0o755)) fun _ => .ret false)
+        | _ => .ret false
+
 /-- renameio.Symlink (tempfile.go:139-171). -/
 def symlinkP (target : String) (dest : Path) : Prog :=
   .sys (.call (.symlink target dest)) fun r =>
@@ -310,6 +378,7 @@ def accepts : Prog → FS → List (Call × Res) → Option (Option Bool)
   | .ret _, _, _ :: _ => none
   | .probeDir p k, s, t => accepts (k (kindAt s p == some .dir)) s t
   | .probeExists p k, s, t => accepts (k (lookup s.names p).isSome) s t
+  | .probeMode p m k, s, t => accepts (k (modeIs s p m)) s t
   | .sys _ _, _, [] => some none
   | .sys r k, s, (c, res) :: t =>
     match matchReq r c res with
